@@ -38,6 +38,7 @@ class SimNet:
         self.events = []              # heap of (time, seq, fn)
         self.seq = 0
         self.listeners = {}
+        self.all_sockets = []
         self.fds = {}
         self.next_fd = first_fd       # 0 for a process that closed its standard streams before opening sockets
         self.next_port = 40000
@@ -211,6 +212,8 @@ class SimSocket:
         self._io_refs = 0
         self.really_closed = False
         self.writes_after_peer_close = 0
+        self.close_calls = 0
+        net.all_sockets.append(self)
         self.net_epipe_after = 1
         self.close_latency = 0.0
 
@@ -299,6 +302,7 @@ class SimSocket:
         return bool(rx.buf) or rx.eof or rx.rst or rx.rst_pending
 
     def close(self):
+        self.close_calls += 1
         self._closed = True
         self._maybe_really_close()
 
